@@ -108,7 +108,7 @@ def prove(pc, hyp, goal, timeout_s=10, logic=None, portfolio=False, fresh=True, 
                 return r, m, dt, 'z3-5.1(api, order abstraction)'
     arith = (logic or '').endswith(('NRA', 'LRA', 'LIA'))
     try:
-        if arith: r, m, dt = check_api(assertions, timeout_s, None if api_default else logic)
+        if arith: r, m, dt = check_api(assertions, min(timeout_s, 5.0) if portfolio else timeout_s, None if api_default else logic)
         elif logic == 'QF_BV': r, m, dt = check_api(assertions, min(timeout_s, 6.0), logic)
         else: r, m, dt = check_api(assertions, min(timeout_s, 4.0), None)
     except z3.Z3Exception:
